@@ -47,6 +47,76 @@ type task struct {
 	spun    bool // force-preempted because it ran SpinLimit yield points without blocking
 	spinCount int
 	last3     [3]string // last yield labels (diagnostics)
+	held      map[sync.Locker]int // exclusive locks held (released when the task's incarnation is killed)
+	rheld     map[rlocker]int     // read locks held
+}
+
+func (t *task) noteLock(l sync.Locker) {
+	if t.held == nil {
+		t.held = map[sync.Locker]int{}
+	}
+	t.held[l]++
+}
+
+func (t *task) noteRLock(l rlocker) {
+	if t.rheld == nil {
+		t.rheld = map[rlocker]int{}
+	}
+	t.rheld[l]++
+}
+
+// noteUnlock forgets one hold of l: the caller's, or (lock handed to another task) any task's.
+func (s *Sim) noteUnlock(l sync.Locker) {
+	if t := s.cur; t != nil && t.held[l] > 0 {
+		if t.held[l]--; t.held[l] == 0 {
+			delete(t.held, l)
+		}
+		return
+	}
+	for _, t := range s.tasks {
+		if t.held[l] > 0 {
+			if t.held[l]--; t.held[l] == 0 {
+				delete(t.held, l)
+			}
+			return
+		}
+	}
+}
+
+func (s *Sim) noteRUnlock(l rlocker) {
+	if t := s.cur; t != nil && t.rheld[l] > 0 {
+		if t.rheld[l]--; t.rheld[l] == 0 {
+			delete(t.rheld, l)
+		}
+		return
+	}
+	for _, t := range s.tasks {
+		if t.rheld[l] > 0 {
+			if t.rheld[l]--; t.rheld[l] == 0 {
+				delete(t.rheld, l)
+			}
+			return
+		}
+	}
+}
+
+// releaseLocks drops every lock a dead task holds: a dead process holds no locks. It only matters for
+// process-wide objects (registries, managers) that the next incarnation uses again.
+func (s *Sim) releaseLocks(t *task) {
+	for l, n := range t.held {
+		for ; n > 0; n-- {
+			l.Unlock()
+		}
+		wakeWaiters(l)
+	}
+	t.held = nil
+	for l, n := range t.rheld {
+		for ; n > 0; n-- {
+			l.RUnlock()
+		}
+		wakeWaiters(l)
+	}
+	t.rheld = nil
 }
 
 // Policy of the scheduler.
@@ -118,6 +188,11 @@ var S *Sim
 // New creates a simulation bound to tape. Must be called inside a synctest bubble.
 func New(tape *Tape) *Sim {
 	ResetPools()
+	defer func() {
+		if TraceYields && S != nil {
+			S.TraceLimit = 1000000
+		}
+	}()
 	s := &Sim{
 		Tape:       tape,
 		parkedCh:   make(chan struct{}, 1),
@@ -158,9 +233,23 @@ func (s *Sim) Event(format string, a ...any) {
 		line = fmt.Sprintf(format, a...)
 	}
 	s.digest = mix(s.digest, line)
-	if len(s.trace) < s.TraceLimit {
-		s.trace = append(s.trace, line)
+	if len(s.trace) >= s.TraceLimit {
+		// keep the tail: the end of a run is what explains a violation
+		n := copy(s.trace, s.trace[len(s.trace)-s.TraceLimit/2:])
+		s.trace = s.trace[:n]
 	}
+	s.trace = append(s.trace, line)
+}
+
+// TraceYields records every yield point in the trace (debugging aid; not part of the digest).
+var TraceYields bool
+
+func (s *Sim) traceOnly(line string) {
+	if len(s.trace) >= s.TraceLimit {
+		n := copy(s.trace, s.trace[len(s.trace)-s.TraceLimit/2:])
+		s.trace = s.trace[:n]
+	}
+	s.trace = append(s.trace, line)
 }
 
 // Eventf is Event for the global simulation, safe when none is active.
@@ -238,6 +327,7 @@ func trimStack(st string) string {
 // incarnation it parks forever.
 func (s *Sim) Kill(inc int) {
 	self := false
+	var killed []*task
 	s.mu.Lock()
 	for _, t := range s.tasks {
 		if t.inc == inc && t.state != stDone && t.state != stDead {
@@ -249,11 +339,16 @@ func (s *Sim) Kill(inc int) {
 				// it may still be woken by the runtime; AfterBlock checks inc death
 			}
 			t.state = stDead
+			killed = append(killed, t)
 		}
 	}
 	s.mu.Unlock()
+	for _, t := range killed {
+		s.releaseLocks(t)
+	}
 	s.Event("kill inc=%d", inc)
 	if self {
+		s.releaseLocks(s.cur)
 		s.park(stDead, nil, nil)
 		select {} // never reached with a correct scheduler
 	}
@@ -262,12 +357,17 @@ func (s *Sim) Kill(inc int) {
 // KillOthers marks every live task of the incarnation except the caller dead.
 func (s *Sim) KillOthers(inc int) {
 	s.mu.Lock()
+	var killed []*task
 	for _, t := range s.tasks {
 		if t.inc == inc && t != s.cur && t.state != stDone && t.state != stDead {
 			t.state = stDead
+			killed = append(killed, t)
 		}
 	}
 	s.mu.Unlock()
+	for _, t := range killed {
+		s.releaseLocks(t)
+	}
 	s.Event("kill others inc=%d", inc)
 }
 
@@ -319,6 +419,9 @@ func Yield(label string) {
 	s.Yields++
 	t0 := s.cur
 	t0.last3[0], t0.last3[1], t0.last3[2] = t0.last3[1], t0.last3[2], label
+	if TraceYields {
+		s.traceOnly(fmt.Sprintf("Y:%d:%s", t0.id, label))
+	}
 	if s.OnYield != nil {
 		s.OnYield(label)
 	}
@@ -411,14 +514,24 @@ func Lock(l sync.Locker) {
 	for !tl.TryLock() {
 		s.park(stWaitLock, l, nil)
 	}
+	s.cur.noteLock(l)
 }
 
 func TryLock(l trylocker) bool {
 	Yield("trylock")
-	return l.TryLock()
+	ok := l.TryLock()
+	if s := S; ok && s != nil && s.cur != nil {
+		if lk, isLocker := l.(sync.Locker); isLocker {
+			s.cur.noteLock(lk)
+		}
+	}
+	return ok
 }
 
 func Unlock(l sync.Locker) {
+	if s := S; s != nil && !s.over {
+		s.noteUnlock(l)
+	}
 	l.Unlock()
 	wakeWaiters(l)
 }
@@ -433,9 +546,13 @@ func RLock(l rlocker) {
 	for !l.TryRLock() {
 		s.park(stWaitLock, l, nil)
 	}
+	s.cur.noteRLock(l)
 }
 
 func RUnlock(l rlocker) {
+	if s := S; s != nil && !s.over {
+		s.noteRUnlock(l)
+	}
 	l.RUnlock()
 	wakeWaiters(l)
 }
